@@ -31,3 +31,40 @@ check("C01", "bpfvm",
       "Trusted: mc/bpfvm.py (bound to the kernel by the differential runs), "
       "the oracle in harness/c01_intexpr.py. Operand values come from a "
       "boundary alphabet plus seeded values, not all 2^64.")
+
+check("C27", "explore",
+      "explicit-state BFS over event histories on the real Valve, reference model",
+      "All histories of <= 5 (quick) / 6 (thorough) events after reset() "
+      "(target changes, the 4 switch readings, clock advances around the "
+      "moving time, update()) for 16 configurations (moving time x safeState "
+      "x bit layout x initial coil) drive the real Valve.update on a real "
+      "SyncGroup frame with a virtual monotonic clock; states are rebuilt by "
+      "replay and deduplicated on (observables, switches, collapsed elapsed "
+      "time, model state); every update is judged by a reference model "
+      "written from the statement.",
+      "Trusted: the reference model's reading of 'switches confirm the "
+      "position the coil commands' (documented in the harness); "
+      "ebpfcat.devices.monotonic is the only clock.")
+check("C28", "explore",
+      "exhaustive enumeration of terminal handshake behaviours on the real "
+      "Serial.update with real pipes",
+      "Three script families (transmit exhaustive: <= 3 application writes "
+      "with lengths {1,21,22,23,45}, all accept-latency patterns with k = 2; "
+      "receive exhaustive: <= 3 announcements, all 24 initialisation "
+      "behaviours; both directions simultaneously) run the real "
+      "Serial.update once per cycle against an independent EL6002 handshake "
+      "model; byte streams, toggle counts and out_string stability are "
+      "checked every cycle.",
+      "Trusted: the harness's EL6002 terminal model (written from the "
+      "PacketDescs and the Beckhoff handshake description).")
+check("C29", "explore",
+      "exhaustive enumeration of device-variable declarations; real spawned "
+      "child processes",
+      "All device classes with 1-3 DeviceVars over 10 formats x instance "
+      "patterns (370 configurations quick, 2009 thorough) are put on a real "
+      "ProcessSyncGroup; storage ownership is measured black-box (probe "
+      "writes), every format round-trips boundary values in-process and "
+      "between the parent and really spawned children (pickled the way "
+      "ProcessSyncGroup.start does).",
+      "start()/subprocess_run are not executed (need SCHED_RR and a NIC): "
+      "the child runs harness code around the real descriptors.")
